@@ -12,7 +12,7 @@ from .mir import Fn, controlling_calls, op_const
 EXPLANATION = ("Dominance rule over the MIR of every executor format branch: the user closure runs only under validity of each input "
                "(siblings — Flat×Flat, selection, constant branches — are checked individually), and a constant-table rule over the parser's "
                "precedence constants. Both are necessary for scalar semantics (NULL propagation, expression grouping); computed values are not decided.")
-NOT_DECIDED = ["the value each function computes", "three-valued AND/OR/NOT truth tables", "context independence of evaluation"]
+NOT_DECIDED = ["the value each function computes", "the full three-valued truth tables (decided: AND/OR do not run on strict executors)", "context independence of evaluation"]
 
 EXEC_MOD = "glaredb_core::arrays::executor::"
 
@@ -176,9 +176,36 @@ def rule_idxspace(facts):
     return r
 
 
+NON_STRICT_SETS = ("FUNCTION_SET_AND", "FUNCTION_SET_OR")
+
+
+def rule_3vl(facts):
+    """C05-NULL makes the generic scalar executors *strict*: a NULL in any input gives a NULL out and the operation is not called.
+    AND / OR are not strict (NULL OR TRUE = TRUE, NULL AND FALSE = FALSE), so a kernel of theirs that runs on a strict executor is
+    wrong by construction, for every input with a NULL next to a deciding value. Who-may-call over the instantiated kernels of the
+    two registry rows."""
+    from .c18 import executor_calls
+    from .instwalk import InstDB
+    r = RuleResult("C05-3VL", "the kernels of the non-strict operators AND / OR never run on the NULL-propagating scalar executors", floor=2)
+    db = InstDB(facts)
+    rows = [x for x in facts.records("row", "glaredb_core") if x["const"].rsplit("::", 1)[-1] in NON_STRICT_SETS and "RawScalarFunction" in x["ctor"]]
+    for row in rows:
+        calls = executor_calls(db, row)
+        name = row["const"].rsplit("::", 1)[-1]
+        r.call_sites += len(calls)
+        r.inst({"row": f"{name}#{row['ord']}", "strict_executor_calls": sorted({c[0] for c in calls})}, not calls)
+        for ex, ins, outst, line, file in calls[:1]:
+            r.violate(row["const"], f"strict-executor:{name}", f"`{name}` is evaluated with {ex} (line {line}), which writes NULL whenever any input is NULL: "
+                      "NULL OR TRUE yields NULL instead of TRUE, NULL AND FALSE yields NULL instead of FALSE, and WHERE drops rows whose predicate is true",
+                      file, line)
+    if len(rows) < 2:
+        r.missing_anchor("registry rows FUNCTION_SET_AND / FUNCTION_SET_OR")
+    return r
+
+
 def run(ctx):
     facts = ctx["facts"]
-    return [rule_null(facts), rule_prec(facts), rule_idxspace(facts)]
+    return [rule_null(facts), rule_prec(facts), rule_idxspace(facts), rule_3vl(facts)]
 
 
 CLAIM = {
